@@ -50,12 +50,23 @@ def cases(tier, seed):
         x = decades[i % len(decades)] if i < 2 * len(decades) else float(loguniform(rng, 1e-3, 900))
         out.append({"id": "smat-%d" % i, "kind": "smat", "m": _gen_m(rng, i), "x": x, "nmed": float(rng.uniform(1.0, 1.6)),
                     "wl": float(rng.uniform(0.4, 0.8)), "seed": [seed, "smat", i], "cost": 1 + x / 100})
+    # metallic spheres (large imaginary index) up to sizes of a few hundred
+    for i, (mm, xx) in enumerate([([0.16, 4.9], 50.0), ([0.16, 4.9], 120.0), ([0.2, 3.0], 300.0), ([0.16, 4.9], 200.0), ([1.3, 7.0], 20.0), ([0.05, 4.0], 2.0)]):
+        out.append({"id": "smat-metal-%d" % i, "kind": "smat", "m": mm, "x": xx, "nmed": 1.33, "wl": 0.7, "seed": [seed, "smatmetal", i], "cost": 2})
     nf = 150 if tier == "quick" else 10000
     for i in range(nf):
         x = float(loguniform(rng, 1e-2, 120))
         out.append({"id": "field-%d" % i, "kind": "field", "m": _gen_m(rng, i), "x": x, "nmed": float(rng.uniform(1.0, 1.6)),
                     "wl": float(rng.uniform(0.4, 0.8)), "opts": scat.MIE_OPTS[i % 4], "pol_angle": float(rng.uniform(0, 2 * math.pi)),
                     "pol_norm": float(loguniform(rng, 0.3, 3)), "near": bool(i % 3 == 0), "seed": [seed, "field", i], "cost": 1 + x / 50})
+    # detector points millimetres away (k r beyond 2e4), with the full and with the asymptotic radial dependence
+    for i in range(12 if tier == "quick" else 300):
+        out.append({"id": "field-far-%d" % i, "kind": "field", "m": _gen_m(rng, i), "x": float(loguniform(rng, 0.1, 20)), "nmed": float(rng.uniform(1.0, 1.6)),
+                    "wl": float(rng.uniform(0.4, 0.8)), "opts": scat.MIE_OPTS[[0, 2, 0, 3][i % 4]], "pol_angle": float(rng.uniform(0, 2 * math.pi)),
+                    "pol_norm": 1.0, "near": False, "veryfar": True, "seed": [seed, "fieldfar", i], "cost": 2,
+                    # beyond k r = 2e4 only the asymptotic, radial-free form is computable (the Fortran code says so on stdout); what the
+                    # other option sets return there is judged by the value oracle under its own mechanism name
+                    "allow_events": [] if [0, 2, 0, 3][i % 4] == 3 else ["contract.calc_field.nonfinite"]})
     nm = 60 if tier == "quick" else 2500
     for i in range(nm):
         x = float(loguniform(rng, 0.05, 18))
@@ -63,10 +74,17 @@ def cases(tier, seed):
         out.append({"id": "ms1-%d" % i, "kind": "ms1", "m": m, "x": x, "nmed": float(rng.uniform(1.0, 1.6)), "wl": float(rng.uniform(0.4, 0.8)),
                     "meth": i % 2, "tight": bool((i // 2) % 2), "as_cluster": bool((i // 4) % 2), "pol_angle": float(rng.uniform(0, 2 * math.pi)),
                     "seed": [seed, "ms1", i], "cost": 3})
+    for i, xx in enumerate([30.0, 40.0] if tier == "quick" else [26.0, 30.0, 40.0, 60.0, 100.0]):
+        out.append({"id": "ms1-large-%d" % i, "kind": "ms1", "m": [1.2, 0.0], "x": xx, "nmed": 1.0, "wl": 0.6, "meth": 1, "tight": True, "as_cluster": True,
+                    "pol_angle": 0.4, "seed": [seed, "ms1large", i], "cost": 40})
     nl = 100 if tier == "quick" else 5000
     for i in range(nl):
+        xr = ["mid", "mid", "small", "mid", "large", "mid"][(i // 5) % 6]
         out.append({"id": "lay-%d" % i, "kind": "layered", "variant": ["same_index", "merge_adjacent", "medium_outer", "thickness", "same_index_all"][i % 5],
-                    "nlayers": 1 + (i // 5) % 4, "seed": [seed, "lay", i]})
+                    "nlayers": 1 + (i // 5) % 4, "seed": [seed, "lay", i], "xregime": xr,
+                    # at the Rayleigh end the layered recursion loses relative accuracy (known finding F64): what the cross-section
+                    # contract would say there is reported by this check's own oracle under the regime's mechanism name
+                    "allow_events": ["contract.calc_cross_sections.cabs_negative", "contract.calc_cross_sections.energy"] if xr == "small" else []})
     return out
 
 
@@ -124,6 +142,9 @@ def _run_smat(case):
             resid["pymie_vs_fortran"] = fnum(max(float(np.abs(np.conj(sp) - S[:, 1, 1]).max()), float(np.abs(np.conj(pl) - S[:, 0, 0]).max())) / sc)
         except RuntimeError as e:
             flags["pymie_raised_runtimeerror"] = False
+        except IndexError as e:
+            # every coefficient came out nan (spherical Bessel functions of the complex argument overflow): Im(m) x > ~700
+            flags["pymie_handles_metallic_sphere" if abs(np.imag(me)) * xe > 600 else "pymie_raised_indexerror"] = False
     return {"resid": resid, "flags": flags, "cond": fnum(cond), "x": xe}
 
 
@@ -142,6 +163,8 @@ def _run_field(case):
     c = np.array([float(rng.uniform(-1, 1)), float(rng.uniform(-1, 1)), 0.0])
     if case["near"]:
         dist = r * rng.uniform(1.05, 3.0, n) + rng.uniform(0, 0.05, n) / k
+    elif case.get("veryfar"):
+        dist = loguniform(rng, 2.5e4, 1e6, n) / k
     else:
         dist = r * 1.05 + loguniform(rng, 0.5, 500, n) / k * 10
     u = rng.normal(size=(n, 3)); u /= np.linalg.norm(u, axis=1, keepdims=True)
@@ -165,7 +188,7 @@ def _run_field(case):
     cond = _cond(fn, me, xe, ref)
     sc = max(float(np.abs(ref).max()), 1e-300)
     resid = {"field_xyz": fnum(float(np.abs(f - ref.T).max()) / sc)}
-    return {"resid": resid, "flags": {}, "cond": fnum(cond), "x": xe}
+    return {"resid": resid, "flags": {}, "cond": fnum(cond), "x": xe, "krmax": float(kr.max()), "full_radial": bool(opts.get("full_radial_dependence", True)), "radial": bool(opts.get("compute_escat_radial", True))}
 
 
 def _run_ms1(case):
@@ -209,9 +232,11 @@ def _run_layered(case):
     o = scat.gen_optics(rng)
     k = scat.kmed(o)
     nl = case["nlayers"]
-    c = (float(rng.uniform(0, 2)), float(rng.uniform(0, 2)), float(rng.uniform(6, 20)))
-    xs = np.sort(loguniform(rng, 0.3, 12, nl)) * (1 + 0.07 * np.arange(nl))
+    # layer size parameters from the Rayleigh end to a couple of hundred (every third case at an end of the range)
+    lo, hi = {"mid": (0.3, 12.0), "small": (1e-3, 0.05), "large": (20.0, 200.0)}[case.get("xregime", "mid")]
+    xs = np.sort(loguniform(rng, lo, hi, nl)) * (1 + 0.07 * np.arange(nl))
     rs = [float(v / k) for v in xs]
+    c = (float(rng.uniform(0, 2)), float(rng.uniform(0, 2)), float(rng.uniform(6, 20)) + 2.2 * rs[-1])      # the detector stays outside the (possibly grown) sphere
     ns = [scat.cnum(scat.gen_index(rng, o, absorbing=(rng.random() < 0.3))) for _ in range(nl)]
     v = case["variant"]
     if v == "same_index_all":
@@ -251,7 +276,8 @@ def _run_layered(case):
     ca = calc_cross_sections(a, o["medium_index"], o["illum_wavelen"], pol, theory=Mie()).values
     cb = calc_cross_sections(b, o["medium_index"], o["illum_wavelen"], pol, theory=Mie()).values
     resid["layered_xsec"] = fnum(max(float(np.abs(ca[:3] - cb[:3]).max() / np.abs(cb[2])), float(abs(ca[3] - cb[3]))))
-    return {"resid": resid, "flags": {}, "cond": 0.0, "x": float(xs[-1])}
+    flags = {"layered_absorption_nonnegative": bool(ca[1] >= -1e-10 * ca[2] and cb[1] >= -1e-10 * cb[2])}
+    return {"resid": resid, "flags": flags, "cond": 0.0, "x": float(xs[-1])}
 
 
 # ------------------------------------------------------------------ oracle
@@ -263,6 +289,8 @@ TOL = {"S1": 1e-9, "S2": 1e-9, "offdiag": 1e-12, "pymie": 1e-6, "pymie_vs_fortra
 def _tol(k, obs):
     if k in ("ms1_field_default", "ms1_smat_default"):
         return 1e-2      # default truncation tolerance qeps1=1e-5 acts on efficiencies (quadratic): amplitudes good to ~3*sqrt(qeps1)
+    if k.startswith("layered_"):
+        return TOL[k] * max(1.0, obs.get("x", 1.0) / 10.0)     # rounding in the recurrences grows with the number of orders ~ x
     return TOL[k]
 
 
@@ -274,10 +302,18 @@ def judge(case, obs):
         if k in ("S1", "S2", "pymie", "field_xyz") and obs["cond"] > t / 10:
             continue    # reference is ill-conditioned here: recognised, not tolerated, not counted as held
         if not v <= t:
-            out.append({"mech": "%s.%s" % (case["kind"], k), "detail": "%s=%.3e > %.1e (reference conditioning %.1e); %s" % (k, v, t, obs["cond"], desc)})
+            regime = ""
+            if case["kind"] == "field" and obs.get("krmax", 0) > 2e4 and (obs.get("full_radial") or obs.get("radial")):
+                regime = ".kr_gt_2e4_hankel_needed"
+            if case["kind"] == "ms1" and obs.get("x", 0) > 25:
+                regime = ".sphere_beyond_order_32"
+            if case["kind"] == "layered" and obs.get("x", 1.0) < 0.1:
+                regime = ".size_parameter_below_0.1"
+            out.append({"mech": "%s.%s%s" % (case["kind"], k, regime), "detail": "%s=%.3e > %.1e (reference conditioning %.1e); %s" % (k, v, t, obs["cond"], desc)})
     for k, v in obs["flags"].items():
         if not v:
-            out.append({"mech": "%s.%s" % (case["kind"], k), "detail": "%s" % desc})
+            regime = ".size_parameter_below_0.1" if case["kind"] == "layered" and obs.get("x", 1.0) < 0.1 else ""
+            out.append({"mech": "%s.%s%s" % (case["kind"], k, regime), "detail": "%s" % desc})
     return out
 
 
